@@ -67,3 +67,6 @@
 
 ; ---- ghost provenance of IR registers (defined by the contract of ir.(*CodeBuilder).GetFreeRegister) ----
 (declare-fun spec.fromGetFreeRegister ((_ BitVec 64)) Bool)
+
+; ---- C remainder (quotient rounded towards zero), as math.fmod on integers ----
+(define-fun spec.truncRem ((a (_ BitVec 64)) (b (_ BitVec 64))) (_ BitVec 64) (bvsrem a b))
